@@ -7,10 +7,12 @@ import Driver.Dispatcher
 import Driver.Sched
 import Driver.Priority
 import Driver.Classify
+import Driver.Scripts
 namespace Driver
 
 def dispatch (line : String) : String :=
   match line.trimAscii.toString.splitOn " " with
+  | "scripts" :: rest => (handleScripts rest).getD "bad-op"
   | "xxh" :: rest => (handleXxh rest).getD "bad-op"
   | "pout" :: rest => (handlePout rest).getD "bad-op"
   | "parse" :: rest => (handleParse rest).getD "bad-op"
